@@ -25,13 +25,15 @@ Lemma c15_exactly_one members tp a : leader_assign members tp = Ok a ->
                if some_subscriber md t then count_occ Z.eq_dec (parts_of tp t) p else 0%nat) /\
   (forall t p, some_subscriber md t = true -> NoDup (parts_of tp t) -> In p (parts_of tp t) ->
                assigned_count a (map fst md) t p = 1%nat) /\
-  (forall m, In m (map fst a) -> In m (map fst members)).
+  (forall m, In m (map fst a) -> In m (map fst members)) /\
+  NoDup (map fst a) /\ (forall m, NoDup (map fst (asg_get a m))).
 Proof.
   intros H md. pose proof (build_md_nodup members) as N. fold md in N.
   destruct (round_robin_exactly_one md tp a N H) as [C K].
-  split; [exact N|]. split; [intro m; apply build_md_keys|]. split; [exact C|]. split.
+  split; [exact N|]. split; [intro m; apply build_md_keys|]. split; [exact C|]. split; [|split].
   - intros t p Hs Nd Hin. rewrite C, Hs. now apply NoDup_count_occ'.
   - intros m Hm. apply build_md_keys. now apply K.
+  - exact (round_robin_distinct md tp a H).
 Qed.
 
 Lemma c15_only_subscribed members tp a : leader_assign members tp = Ok a ->
